@@ -246,12 +246,12 @@ def gen_cases(ctx):
                 s.final(rng)
                 cases.append(("exhaustive-len%d" % n, s))
     # (2) random scripts
-    for _ in range(ctx.scale(400, 6000)):
+    for _ in range(ctx.scale(1200, 6000)):
         mx = rng.choice([0, 1, 1, 2, 2, 3, 3])
         mode = rng.choice(["both"] * 4 + ["http", "ws"])
         cases.append(("random-%s" % mode, random_script(rng, mx, mode, rng.randint(3, 28))))
     # (3) repetition: one exit path cycled
-    reps, cyc = ctx.scale((1, 12), (50, 200))
+    reps, cyc = ctx.scale((2, 15), (50, 200))
     for path in EXIT_PATHS:
         for mx in (1, 2, 3):
             for _ in range(reps if mx < 3 else max(1, reps // 2)):
@@ -379,6 +379,9 @@ def evaluate(ctx, cases, impl, model):
         ctx.record(case, a, nontrivial=refusals)
         if a != b:
             ctx.fail("diff", "connguard-model-differs", case, {"impl": a, "model": b})
+        if a.startswith("T-warmup "):
+            ctx.fail("oracle", "stuck:warmup", case, "after the warm-up call the slot counter did not return to max within the bounded wait")
+            a = a[len("T-warmup "):]
         res = parse_result(a, len(s.toks))
         if res is None:
             ctx.fail("oracle", "stuck:case", case, a[:300])
